@@ -389,7 +389,9 @@ class ScriptedPool:
         self.conns, self.procs = [], []
         for i in range(self.w):
             pc, cc = ctx.Pipe()
-            p = ctx.Process(target=_worker_loop, args=(cc,))
+            # daemonic, like the workers of the real multiprocessing.Pool: if the code under test raises out of starmap
+            # without closing its pool, the workers must not keep the calling process from exiting
+            p = ctx.Process(target=_worker_loop, args=(cc,), daemon=True)
             p.start()
             cc.close()
             self.conns.append(pc)
@@ -415,6 +417,7 @@ class ScriptedPool:
         for i in range(len(jobs)):
             ok, val = got[i]
             if not ok:
+                self.close()
                 raise val
             res[i] = val            # results are stored by job index
         return res
